@@ -35,6 +35,12 @@ func specBackoff(T int, i int) int {
 //@   trusted
 //@ contract type Matcher
 //@   trusted
+//@   ensures result == specMatch(self, arg0)
+
+// specMatch(m, p): what matcher m answers for packet p (abstract: matchers are deterministic and read-only)
+//@ contract specMatch
+//@   trusted
+func specMatch(m Matcher, p *dhcpv4.DHCPv4) bool { return true }
 
 // (what a try writes is not retryFn's business - "modifies *" - except that it leaves the client's configuration alone)
 // One try, as retryFn sees it: exactly one transmission, at the start of the try, unless the try ends with another
@@ -121,6 +127,7 @@ func lemmaBackoffMono(T, i, j int) {
 //@   ensures[deadline] result == errDeadlineExceeded ==> now() == t0 + int(timeout) && sends() == s0 + 1 && sentAt() == t0
 //@   ensures[accepted] result == nil ==> now() <= t0 + int(timeout) && sends() == s0 + 1 && sentAt() == t0
 //@   ensures[bound] now() <= t0 + int(timeout) && now() >= t0 && sends() <= s0 + 1 && sends() >= s0
+//@   ensures[matched] result == nil ==> match == nil || specMatch(match, response)
 //@   ensures[one-send] sends() == s0 + 1 ==> sentAt() == t0 && lastSent() == W && lastSentTo() == net.Addr(dest)
 //@   ensures[in-use] old(has(c.pending, p.TransactionID)) ==> result != nil && sends() == s0 && now() == t0
 //@   loop 0 invariant[timer] isTimer(deadline) && fireAt(deadline) == t0 + int(timeout)
@@ -139,3 +146,18 @@ func lemmaBackoffMono(T, i, j int) {
 //@   ensures[hidden] err != errDeadlineExceeded
 //@   ensures[bound] N >= 0 ==> now() <= t0 + specBackoff(T, N) - T && sends() <= s0 + N
 //@   ensures[result] (err == nil) ==> sends() >= s0 + 1
+
+// ---------- receive loop (property C10): what is handed to which transaction ----------
+//
+// chsends() counts the values the function has sent on channels (ghost); lastChan() / lastChanValue() are the channel and
+// the value of the most recent one. Per datagram read (one iteration of the loop): at most one message is handed on; it
+// is the decoding of this very datagram, it is a BOOTREPLY, it carries the client's hardware address when the client has
+// one, and the channel it goes to is the one registered for its own transaction id.
+//@ contract (*Client).receiveLoop
+//@   requires c != nil && c.conn != nil && c.logger != nil && c.pending != nil
+//@   modifies c.pending
+//@   after `n, _, err := c.conn.ReadFrom(b)` let S0 = chsends()
+//@   after `c.pendingMu.Unlock()` assert[at-most-one] chsends() == S0 || chsends() == S0 + 1
+//@   after `c.pendingMu.Unlock()` assert[decoded] chsends() == S0 + 1 ==> SpecAcceptV4(string(b[:n])) && lastChanValue() == msg && string(msg.TransactionID[:]) == string(b[:n])[4:8]
+//@   after `c.pendingMu.Unlock()` assert[reply-for-us] chsends() == S0 + 1 ==> int(msg.OpCode) == 2 && (c.ifaceHWAddr != nil ==> string(c.ifaceHWAddr) == string(msg.ClientHWAddr))
+//@   after `c.pendingMu.Unlock()` assert[own-channel] chsends() == S0 + 1 ==> has(c.pending, msg.TransactionID) && lastChan() == c.pending[msg.TransactionID].ch
